@@ -6,7 +6,7 @@ from pyvc import source, VERIF, REPO
 from pyvc.interp import Interp, explore, Outside, PyExc, SymVal, Contract, GenList, LocalList, LocalDict
 from pyvc.world import World
 from pyvc.smt import Obligation, Result
-from checks.structs import Holder
+from checks.structs import Holder, Tok
 
 FILE = 'pytableaux/lang/lex.py'
 
@@ -282,6 +282,27 @@ def straightline(ctx):
     prs = explore(lambda path: Interp(path, world).call_source(fi, fn, Lexical, [it_], {}))
     ok = len(prs) == 1 and prs[0].value == 'H' and len(seen) == 1 and isinstance(seen[0], tuple) and seen[0][0] is Lexical and seen[0][1] == it_.key
     ctx.add(enum_ob('C14.hashitem', ok, where=where, clause='hash(item) = hash((Lexical, sort_tuple)): equal keys give equal hashes', cex={}))
+    # Argument.hash: of the sequence of members only (what == compares) -- not of the title or anything else an equal argument may differ in
+    from pytableaux.lang import Argument
+    fnA = Argument.__dict__['hash']; fnA = getattr(fnA, 'fget', None) or getattr(fnA, '__wrapped__', None) or getattr(fnA, 'method', None) or fnA
+    try:
+        fiA = source.of_function(fnA); whereA = ctx.under_contract(fiA)
+        seenA = []
+        wA = World(); wA.builtin_models[hash] = lambda it, x: (seenA.append(x), 'H')[1]
+        class _SeqTok(Tok):
+            def sym_iter(s, it): return [Tok('member0'), Tok('member1')]
+        SEQ, TITLE = _SeqTok('seq'), Tok('title')
+        class ArgM(SymVal):
+            def sym_getattr(s, it, n):
+                if n == 'seq': return SEQ
+                if n == 'title': return TITLE
+                if n in ('premises', 'conclusion'): return Tok(n)
+                raise Outside(f'Argument.{n}')
+        prsA = explore(lambda path: Interp(path, wA).call_source(fiA, fnA, Argument, [ArgM()], {}))
+        okA = len(prsA) == 1 and prsA[0].kind == 'return' and prsA[0].value == 'H' and len(seenA) == 1 and seenA[0] is SEQ
+        ctx.add(enum_ob('C14.Argument.hash', okA, where=whereA, clause='hash(argument) = hash(its sequence of members), the value equality compares: equal arguments (titles may differ) have equal hashes', cex=dict(hashed=[repr(x)[:80] for x in seenA])))
+    except Outside as e:
+        ctx.add_result(Result('C14.Argument.hash', 'unknown', detail=f'outside subset: {e}'))
     # identitem
     fn = Lexical.__dict__['identitem'].__func__; fi = source.of_function(fn); where = ctx.under_contract(fi)
     class It2(SymVal):
@@ -583,6 +604,7 @@ def bounded_pairs(ctx):
     # arguments
     sents = [i for i in items if isinstance(i, Sentence)][:14]
     args = [Argument(c) for c in sents[:6]] + [Argument(c, (p,)) for c in sents[:5] for p in sents[:5]] + [Argument(sents[0], (sents[1], sents[2]))]
+    args += [Argument(sents[0], title='a title'), Argument(sents[0], (sents[1],), title='t1'), Argument(sents[0], (sents[1],), title='t2')]      # the title is not part of the value
     for a in args:
         for b in args:
             n += 1
